@@ -170,3 +170,22 @@ Example bad_dependency_nonvacuous :
   bad_dependency (Cfg (Some true) None None (Some (s2b "s")) (Some (s2b "k")) None None None false
                       (Some [(s2b "#nope", Cfg (Some true) None None None None None None None false None)])) toy_env.
 Proof. eapply BadHere; [left; reflexivity|vm_compute; reflexivity]. Qed.
+
+(* F21 — what recursive signing takes for a named dependency is an envelope: tag 107 around a map, nothing else (the regenerated
+   _load_dependency).  A payload that merely begins with a CBOR tag is refused (ValueError), it is never handed on, let alone written back. *)
+Theorem loaded_dependency_is_an_envelope envelope name c :
+  load_dependency envelope name = Ok c -> exists m, c = CTag 107 (CMap m) \/ c = CTag 107 (CMapI m).
+Proof.
+  unfold load_dependency. intros H.
+  repeat match type of H with
+         | match ?x with _ => _ end = _ => destruct x eqn:?; try discriminate
+         end.
+  all: injection H as <-; eexists; eauto.
+Qed.
+Print Assumptions loaded_dependency_is_an_envelope.
+Example tag_looking_payload_is_refused :
+  load_dependency (CTag 107 (CMap [(CText (s2b "#p"), CBytes [216; 107; 1; 7; 7; 7])])) (s2b "#p") = Raise ValueError.
+Proof. vm_compute. reflexivity. Qed.
+Example envelope_dependency_is_loaded :
+  load_dependency (CTag 107 (CMap [(CText (s2b "#d"), CBytes [216; 107; 160])])) (s2b "#d") = Ok (CTag 107 (CMap [])).
+Proof. vm_compute. reflexivity. Qed.
